@@ -27,6 +27,11 @@
 #define MAXG 16
 #define MAXC 160
 #define MAXV 16
+#ifndef NO_PROJ
+#define STEP_GRAIN "true"
+#else
+#define STEP_GRAIN "false"
+#endif
 
 /* variables may have no storage at all (data NULL, size 0) */
 static void cpy(void *d, const void *s, size_t n) { if (n && d && s) memcpy(d, s, n); }
@@ -448,6 +453,7 @@ static void handler_mem(uint8_t **b)
 }
 
 /* ------------------------------------------------------------------ projection (as in catdrv) */
+#ifndef NO_PROJ
 static int wbuf_code(const char *p)
 {
         if (p == NULL) return -1;
@@ -476,6 +482,15 @@ static void print_state(FILE *f)
                 fprintf(f, "%s[%d,%d]", i ? "," : "", idx_sh(u->unsolicited_cmd_buffer[i].cmd), (int)u->unsolicited_cmd_buffer[i].type);
         fprintf(f, "]}");
 }
+static int cmd_idle(void) { return at->state == CAT_STATE_IDLE; }
+static int ev_idle(void) { return at->unsolicited_fsm.state == CAT_UNSOLICITED_STATE_IDLE && at->unsolicited_fsm.unsolicited_cmd_buffer_items_count == 0; }
+static int pc_index(void) { return idx_sh(at->cmd); }
+#else
+static void print_state(FILE *f) { (void)f; }
+static int cmd_idle(void) { return 0; }
+static int ev_idle(void) { return 0; }
+static int pc_index(void) { return idx_sh(__real_cat_get_processed_command(at, CAT_FSM_TYPE_ATCMD)); }
+#endif
 
 /* ------------------------------------------------------------------ records */
 static void begin_call(const char *name, const char *args)
@@ -493,8 +508,8 @@ static void begin_call(const char *name, const char *args)
         evlen = 0; ev_count = 0; ev_printf("%s", "");
         call_unlock_seen = 0;
         if (omx) snap_take(snap_entry);
-        half_cmd_idle = at->state == CAT_STATE_IDLE;
-        half_ev_idle = at->unsolicited_fsm.state == CAT_UNSOLICITED_STATE_IDLE && at->unsolicited_fsm.unsolicited_cmd_buffer_items_count == 0;
+        half_cmd_idle = cmd_idle();
+        half_ev_idle = ev_idle();
         memcpy(half_copy, buf, bufsize);
         if (usize >= 0) memcpy(half_copy + bufsize, ubuf, (size_t)usize);
 }
@@ -521,7 +536,7 @@ static int aliased(int c, int v)
 static int deferred[MAXC * MAXV][2]; static int ndeferred;
 static void diff_mem(void)
 {
-        int pc = idx_sh(at->cmd);
+        int pc = pc_index();
         ndeferred = 0;
         for (int i = 0; i < ncmds; i++)
                 for (int j = 0; j < cmds[i].nvars; j++) {
@@ -581,8 +596,8 @@ static void end_scenario(void)
         scenario_open = 0;
         fclose(bodyf); bodyf = NULL;
         if (out && !unsupported) {
-                fprintf(out, "{\"e\":\"cfg\",\"sid\":%ld,\"qcap\":%d,\"acap\":%zu,\"ucap\":%zu,\"shared\":%s,\"mutex\":%s,\"step\":true,\"fill\":%d,\"ntab\":%d,\"groups\":[",
-                        sid, (int)CAT_UNSOLICITED_CMD_BUFFER_SIZE, acap, ucap, usize < 0 ? "true" : "false", omx ? "true" : "false", fill_flag, ntab);
+                fprintf(out, "{\"e\":\"cfg\",\"sid\":%ld,\"qcap\":%d,\"acap\":%zu,\"ucap\":%zu,\"shared\":%s,\"mutex\":%s,\"step\":%s,\"fill\":%d,\"ntab\":%d,\"groups\":[",
+                        sid, (int)CAT_UNSOLICITED_CMD_BUFFER_SIZE, acap, ucap, usize < 0 ? "true" : "false", omx ? "true" : "false", STEP_GRAIN, fill_flag, ntab);
                 for (int g = 0; g < ngroups; g++) {
                         fprintf(out, "%s{\"disable\":%s,\"hasname\":%s,\"name\":", g ? "," : "", ginit[g] ? "true" : "false", odesc->cmd_group[g]->name ? "true" : "false");
                         put_name(out, odesc->cmd_group[g]->name);
